@@ -418,4 +418,15 @@ theorem splitOn_first (c : Char) (a rest : List Char) (ha : c ∉ a) :
     rw [List.cons_append, splitOn_cons, ih ha.2]
     simp [hx]
 
+theorem mapM_ok_of_forall {α β ε : Type} (f : α → Except ε β) (l : List α) (h : ∀ a ∈ l, ∃ b, f a = .ok b) :
+    ∃ r, l.mapM f = .ok r := by
+  induction l with
+  | nil => exact ⟨[], rfl⟩
+  | cons a as ih =>
+    obtain ⟨b, hb⟩ := h a (by simp)
+    obtain ⟨bs, hbs⟩ := ih (fun x hx => h x (List.mem_cons_of_mem _ hx))
+    refine ⟨b :: bs, ?_⟩
+    rw [List.mapM_cons, hb, hbs]
+    rfl
+
 end ChemModel.NumFmt
